@@ -53,7 +53,7 @@ class Prop:
             "event log (operations, outcomes, eval calls)")
     probes = ["op_scalar", "op_array", "op_view_create", "op_on_view", "op_on_packed_view", "expect_indexerror_order",
               "expect_indexerror_finite", "expect_runtimeerror_cycle", "masked_result", "precached_read",
-              "dep_nested_eval", "dep_slice_eval", "dep_view_eval", "kept_view_created", "op_on_kept_view", "npint_index", "cycle_len1", "cycle_len2", "cycle_len3", "view_of_view", "wrong_length"]
+              "dep_nested_eval", "dep_slice_eval", "dep_view_eval", "nested_list_index", "none_valued_read", "kept_view_created", "op_on_kept_view", "npint_index", "cycle_len1", "cycle_len2", "cycle_len3", "view_of_view", "wrong_length"]
     components_real = ["pymablock.series.BlockSeries (__getitem__, views, _check_finite, _check_number_perturbations)"]
     components_stub = ["element eval callbacks (simulator-owned table with dependency edges)", "series names (token_hex counter)"]
     assumptions = ["orders < 5, at most 4 finite and 2 infinite dimensions (5 in total), sizes 1-3",
@@ -69,7 +69,7 @@ class Prop:
             if nfin + ninf > 5:
                 nfin = 5 - ninf
             shape = [r.choice([1, 2, 2, 3] if nfin < 4 else [1, 2, 2]) for _ in range(nfin)]
-            roots.append({"shape": shape, "ninf": ninf, "p_absent": r.choice([0.0, 0.2, 0.5]),
+            roots.append({"shape": shape, "ninf": ninf, "p_absent": r.choice([0.0, 0.2, 0.5]), "p_none": r.choice([0.0, 0.0, 0.0, 0.15]),
                           "vseed": r.randrange(1 << 30), "pre": []})
         # pre-cached entries
         for s, root in enumerate(roots):
@@ -195,6 +195,15 @@ class Prop:
                 a = r.choice([None, 0, r.randint(0, K)])
                 c = r.choice([None, 1, 2, 3])
                 item.append({"s": [a, b, c]})
+        if not finite_only and not fault and len(item) >= 2 and r.random() < 0.08:
+            # two index components given as a column list and a row list (what np.ix_ produces); the others stay scalars
+            dims_all = list(shape) + [K] * ninf
+            a, b = sorted(r.sample(range(len(item)), 2))
+            if min(dims_all[a], dims_all[b]) < 1:
+                return item
+            item = [c if isinstance(c, int) else (0 if k < len(shape) else r.randrange(K)) for k, c in enumerate(item)]
+            item[a] = {"l": [[r.randrange(dims_all[a])] for _ in range(2)]}
+            item[b] = {"l": [[r.randrange(dims_all[b]) for _ in range(r.choice([1, 2]))]]}
         if fault and r.random() < 0.1 and item:
             # wrong number of indices
             if r.random() < 0.5:
@@ -251,10 +260,11 @@ class Prop:
             ids.append(arr)
             rr = np.random.default_rng(root["vseed"])
             absent = rr.random(n) < root["p_absent"]
+            none_valued = rr.random(n) < root.get("p_none", 0.0)  # None is a perfectly legal element value
             vals = {}
             for k, index in enumerate(np.ndindex(*full) if full else [()]):
                 flat.append((s, tuple(int(i) for i in index)))
-                vals[tuple(int(i) for i in index)] = zero if absent[k] else Tag(s, index, "E")
+                vals[tuple(int(i) for i in index)] = zero if absent[k] else (None if none_valued[k] else Tag(s, index, "E"))
             pdata = {}
             for index, is_zero in root["pre"]:
                 index = tuple(index)
@@ -359,6 +369,8 @@ class Prop:
             item = _item_to_py(item_spec)
             if any(isinstance(c, np.integer) for c in item):
                 bump("npint_index")
+            if any(isinstance(c, list) and c and isinstance(c[0], list) for c in item):
+                bump("nested_list_index")
             calls_before = dict(calls)
             cached_before = {id(x): set(x._data) for x in all_series}
             # ---------------- prediction
@@ -477,6 +489,8 @@ class Prop:
                         want = values[s][index]
                         if res is not want:
                             fail("scalar-value", f"{desc}: expected element {want!r}, got {self._show(res)}")
+                        if want is None:
+                            bump("none_valued_read")
                         if index in pre[s]:
                             bump("precached_read")
                         events.append(("op", opi, "scalar", int(sel)))
@@ -523,7 +537,7 @@ class Prop:
                 if (o.start is not None and o.start < 0) or o.stop < 0:
                     return "negative"
             elif isinstance(o, list):
-                if any(i < 0 for i in o):
+                if len(o) and np.min(np.asarray(o)) < 0:
                     return "negative"
             elif o < 0:
                 return "negative"
